@@ -139,8 +139,10 @@ vox_read_block (SF_PRIVATE *psf, IMA_OKI_ADPCM *pvox, short *ptr, int len)
 
 		ima_oki_adpcm_decode_block (pvox) ;
 
-		memcpy (&(ptr [indx]), pvox->pcm, pvox->pcm_count * sizeof (short)) ;
-		indx += pvox->pcm_count ;
+		/* Every code byte decodes to two samples : an odd request has room for only one of the last pair. */
+		k = (pvox->pcm_count > len - indx) ? len - indx : pvox->pcm_count ;
+		memcpy (&(ptr [indx]), pvox->pcm, k * sizeof (short)) ;
+		indx += k ;
 		} ;
 
 	return indx ;
